@@ -3,9 +3,9 @@ package liquid
 // C12 — assign/capture bind for the rest of the render; loop variables are restored.
 
 import (
+	nd "github.com/osteele/liquid/zz_verifnd"
 	yaml "gopkg.in/yaml.v2"
 	"math"
-	nd "github.com/osteele/liquid/zz_verifnd"
 )
 
 // c12Payload returns an arbitrary value and its printed form.
